@@ -34,6 +34,8 @@ def run(ctx):
         dd = ctx.rundir("escalate")
         vlib.run_driver(ctx, b, "record", dd + "/t.ndjson", n=800)
         return vlib.read_ndjson(dd + "/t.ndjson")
+    vlib.call_history_model(ctx)
+    vlib.call_histories(ctx, binp, t, ["shift.b", "shift.derive"], "ECTrace", "shifting the private key and shifting its public key disagree")
     ec.judge(ctx, [("elliptic", binp, g + t)], "shifting the private key and shifting its public key disagree (validity, result or panic)", escalate=escalate)
     return vlib.finish(ctx, LEVEL, RULE, ec.ASSUME, matchers=ec.MATCHERS,
                        technique="TLA+ spec ECGroup/ECTrace: toy-curve model; complete (k,d) tables replayed through the real Shift code on a toy-instantiated curve; real-size shifts judged by TLC with BigNat certificates")
